@@ -1,7 +1,10 @@
 (* Extraction of the schema validator for the C11 correspondence check (validator <-> libxml2).  ExtrOcamlBasic only;
-   the two schema VALUES are the generated ones (Gen/Generated.v, re-read from /repo/xsd on every run). *)
+   the two schema VALUES are the generated ones (Gen/Generated.v, re-read from /repo/xsd on every run).
+   Second half: the invariants `reach` / `reach_chain` (Model/Reach.v) and the writers' model (Model/Emit.v), evaluated on
+   the objects the real tool hands to its writers. *)
 Require Import ExtrOcamlBasic.
-From MHL Require Import Gen.Generated Model.Schema.
+From MHL Require Import Gen.Generated Model.Schema Model.Reach.
 Extraction Language OCaml.
 Extraction "../ocaml/schema_model.ml"
-  validate valid_type stype_ok datetime_ok integer_ok email_ok schema_manifest schema_directory render_datetime.
+  validate valid_type stype_ok datetime_ok integer_ok email_ok schema_manifest schema_directory render_datetime
+  reach reach_chain creator_reach procinfo_reach record_reach chainent_reach emit_hashlist emit_chain infoset.
